@@ -249,7 +249,8 @@ def run(chk, prog):
     chk.floor("R3-kick-centre", len(r), 6)
     # ---- R5: every bunch is kicked and drifted (multi-bunch index maps decided under C08 R1/R2/R6; re-evaluated here) ----------
     from .common import reeval
-    reeval(chk, prog, "C08", lambda i: i["rule"] in ("R1", "R2", "R6") and "Wake" not in i["what"] and "wake" not in i["what"], "R5", "R5-per-bunch-rows", 8)
+    reeval(chk, prog, "C08", lambda i: (i["rule"] in ("R1", "R2", "R6") and "Wake" not in i["what"] and "wake" not in i["what"]) or (i["rule"] == "R4" and "Identity" in i["what"]),
+           "R5", "R5-per-bunch-rows", 8)
     # ---- R7: "no damping" may be asked for with FPType 0 as well as with a zero damping time: the Fokker-Planck map then has to be the
     # identity on the centroid -- the FPType gates and stencil moments (C04 R1, R2; re-evaluated here)
     reeval(chk, prog, "C04", lambda i: i["rule"] in ("R1", "R2") and "none" in i["what"], "R7", "R7-no-damping-gate", 4)
